@@ -98,11 +98,12 @@ type FS struct {
 	ErrAll       map[string]string // op name -> error (implementation failure injection)
 	destroyed    map[int]int       // token -> times destroyed
 	cancelled    map[*go9p.SrvReq]bool // requests this implementation cancelled through FlushOp
+	tokenConn    map[int]int           // identity token of every fid shown to the implementation -> connection
 	Saved        []*go9p.SrvReq
 }
 
 func NewFS() *FS {
-	fs := &FS{Script: map[reqKey]*Action{}, tagOcc: map[[2]int]int{}, conns: map[*go9p.Conn]int{}, occOf: map[*go9p.SrvReq]int{}, destroyed: map[int]int{}, cancelled: map[*go9p.SrvReq]bool{}, ErrAll: map[string]string{}, AuthCheckErr: map[uint32]string{}}
+	fs := &FS{Script: map[reqKey]*Action{}, tagOcc: map[[2]int]int{}, conns: map[*go9p.Conn]int{}, occOf: map[*go9p.SrvReq]int{}, destroyed: map[int]int{}, cancelled: map[*go9p.SrvReq]bool{}, tokenConn: map[int]int{}, ErrAll: map[string]string{}, AuthCheckErr: map[uint32]string{}}
 	fs.root = &node{name: "/", dir: true, path: 1, children: map[string]*node{}}
 	fs.nextPath = 2
 	d := fs.add(fs.root, "d", true)
@@ -153,6 +154,9 @@ func (fs *FS) show(f *go9p.SrvFid, n *node) *fidAux {
 	fs.ntoken++
 	a := &fidAux{token: fs.ntoken, node: n}
 	f.Aux = a
+	if f.Fconn != nil {
+		fs.tokenConn[a.token] = fs.connIdx(f.Fconn)
+	}
 	return a
 }
 
@@ -239,6 +243,14 @@ func (fs *FS) Attach(req *go9p.SrvReq) {
 
 func (fs *FS) Walk(req *go9p.SrvReq) {
 	src := auxOf(req.Fid)
+	// like Ufs, give a new fid its per-fid data before doing anything else
+	var nf *fidAux
+	if req.Newfid != req.Fid && req.Newfid.Aux == nil {
+		fs.ntoken++
+		nf = &fidAux{token: fs.ntoken}
+		req.Newfid.Aux = nf
+		fs.tokenConn[fs.ntoken] = fs.connIdx(req.Conn)
+	}
 	a, _ := fs.enter(req, "Walk", req.Fid, fmt.Sprintf("newfid=%d names=%v", req.Tc.Newfid, req.Tc.Wname))
 	if a.Silent {
 		fs.Saved = append(fs.Saved, req)
@@ -285,8 +297,7 @@ func (fs *FS) Walk(req *go9p.SrvReq) {
 		if req.Newfid == req.Fid {
 			src.node = n
 		} else {
-			fs.ntoken++
-			req.Newfid.Aux = &fidAux{token: fs.ntoken, node: n}
+			nf.node = n
 		}
 	}
 	fs.resp(req, fmt.Sprintf("Rwalk %v", qids))
@@ -541,6 +552,7 @@ type FSAuth struct{ *FS }
 func (fs FSAuth) AuthInit(afid *go9p.SrvFid, aname string) (*go9p.Qid, error) {
 	fs.ntoken++
 	afid.Aux = &fidAux{token: fs.ntoken, auth: true}
+	fs.tokenConn[fs.ntoken] = fs.connIdx(afid.Fconn)
 	fs.Log = append(fs.Log, Entry{Seq: vs.Seq(), Kind: "call", Op: "AuthInit", Conn: fs.connIdx(afid.Fconn), Token: fs.ntoken, User: userName(afid.User), Args: fmt.Sprintf("aname=%q", aname)})
 	if fs.AuthInitErr != "" {
 		return nil, &go9p.Error{Err: fs.AuthInitErr, Errornum: 1}
